@@ -151,6 +151,14 @@ CHECKS["C04"] = ("E3-puppet + E2-sim",
   "the model with the requests applied exactly once; a sender reports success only after its receiver did.",
   "Side effects are compared at the end of the run with the C13 model. Late PDUs arriving after the transaction has ended start a new transaction (C11).",
   "DESIGN.md §5 C04")
+CHECKS["C11"] = ("E2-sim",
+  "seeded generation of multi-daemon, multi-transaction scenarios with random link faults, injected stray PDUs and replays on the real daemons; per-transaction identity oracle + routing + termination + health check",
+  "2-3 real daemons, 2..24 overlapping Puts in any direction and mode with per-transaction tagged contents and destinations, four families (loss-free; + strays; lossy + strays; strays + replay of an ended "
+  "transaction's PDUs). Put ids must be pairwise distinct; every success claim must show that transaction's own content at its own destination (cross-wiring is recognised by the tag); every indication must name a "
+  "transaction that exists at that entity; loss-free: every Put succeeds despite the strays; always: every transaction, including those started by strays, is gone at the end, no daemon stopped, and every daemon "
+  "completes a fresh Put afterwards.",
+  "Single-threaded deterministic scheduler (message orderings, seeded select! branches), not preemptive interleavings. Sampled: thousands of scenarios per run.",
+  "DESIGN.md §5 C11")
 NOT_YET = {}
 
 def main():
